@@ -70,6 +70,11 @@ func (w *webhookExecutorEtag) adjustResponse(
 		if !cacheEntryExists {
 			return nil, fmt.Errorf("cannot find cached response for cache key: %s", cacheKey)
 		}
+		if cacheEntry.Etag != request.Header.Get(headerIfNoneMatch) {
+			// A concurrent call about the same object replaced the entry while this
+			// request was in flight; its body belongs to another ETag.
+			return nil, fmt.Errorf("cached response for cache key %s no longer matches the ETag that was sent", cacheKey)
+		}
 		return cacheEntry.Response, nil
 	}
 	eTag := response.Header.Get(headerETag)
